@@ -48,43 +48,34 @@ theorem emitLines_eq_specLines (segs : List (FSeg π K)) (prev a : List K)
     (h : prev.length = a.length) : emitLines segs prev a = specLines segs prev a := by
   simp [emitLines, specLines, emitAttr_eq_interp prev a _ h]
 
-theorem partial_run (F : Flattener π K) (n : Nat) (ab : Bool) (s s' : FlatB π K)
-    (prog : List (Call π (List K)))
-    (hlen : attrsLen n prog = true) (hnc : noCurveAfterBegin ab prog = true)
-    (hcur : s.cur = s'.cur) (hl : s'.prev.length = n) (hp : ab = false → s.prev = s'.prev) :
-    FlatB.run F s prog = FlatB.specRun F s' prog := by
-  induction prog generalizing ab s s' with
+/-- the adapter and the reference flattening agree from every state whose `prev_attributes`
+has the program's attribute count -/
+theorem full_run (F : Flattener π K) (n : Nat) (s : FlatB π K) (prog : List (Call π (List K)))
+    (hlen : attrsLen n prog = true) (hl : s.prev.length = n) :
+    FlatB.run F s prog = FlatB.specRun F s prog := by
+  induction prog generalizing s with
   | nil => rfl
   | cons c r ih =>
     cases c with
     | begin p a =>
       simp only [attrsLen, Bool.and_eq_true, beq_iff_eq] at hlen
-      simp only [noCurveAfterBegin] at hnc
       simp only [FlatB.run, FlatB.specRun, FlatB.step, FlatB.specStep]
-      rw [ih true ⟨p, s.prev⟩ ⟨p, a⟩ hlen.2 hnc rfl hlen.1 (by simp)]
+      rw [ih ⟨p, a⟩ hlen.2 hlen.1]
     | line p a =>
       simp only [attrsLen, Bool.and_eq_true, beq_iff_eq] at hlen
-      simp only [noCurveAfterBegin] at hnc
       simp only [FlatB.run, FlatB.specRun, FlatB.step, FlatB.specStep]
-      rw [ih false _ ⟨p, a⟩ hlen.2 hnc rfl hlen.1 (by simp)]
+      rw [ih ⟨p, a⟩ hlen.2 hlen.1]
     | quad k p a =>
       simp only [attrsLen, Bool.and_eq_true, beq_iff_eq] at hlen
-      simp only [noCurveAfterBegin, Bool.and_eq_true, Bool.not_eq_true'] at hnc
-      have hpp := hp hnc.1
       simp only [FlatB.run, FlatB.specRun, FlatB.step, FlatB.specStep]
-      rw [ih false _ ⟨p, a⟩ hlen.2 hnc.2 rfl hlen.1 (by simp), hcur, hpp,
-        emitLines_eq_specLines _ _ _ (by rw [hl, hlen.1])]
+      rw [ih ⟨p, a⟩ hlen.2 hlen.1, emitLines_eq_specLines _ _ _ (by rw [hl, hlen.1])]
     | cubic k1 k2 p a =>
       simp only [attrsLen, Bool.and_eq_true, beq_iff_eq] at hlen
-      simp only [noCurveAfterBegin, Bool.and_eq_true, Bool.not_eq_true'] at hnc
-      have hpp := hp hnc.1
       simp only [FlatB.run, FlatB.specRun, FlatB.step, FlatB.specStep]
-      rw [ih false _ ⟨p, a⟩ hlen.2 hnc.2 rfl hlen.1 (by simp), hcur, hpp,
-        emitLines_eq_specLines _ _ _ (by rw [hl, hlen.1])]
+      rw [ih ⟨p, a⟩ hlen.2 hlen.1, emitLines_eq_specLines _ _ _ (by rw [hl, hlen.1])]
     | end_ cl =>
       simp only [attrsLen] at hlen
-      simp only [noCurveAfterBegin] at hnc
       simp only [FlatB.run, FlatB.specRun, FlatB.step, FlatB.specStep]
-      rw [ih ab s s' hlen hnc hcur hl hp]
+      rw [ih s hlen hl]
 
 end Lyon.Adapt
